@@ -97,27 +97,27 @@ CHECKS = {
    ref='7 (C18)'),
  'C10': dict(
    cat='proof',
-   text='Theorems over the push/pull/peek selects, guards and key constants regenerated from core.py. Integer queue and every string prefix: the range-restricted, key-ordered view evolves as a double-ended queue; order of 15-digit zero-padded keys proved = numeric order; peek = next pull; invariant inductive over all push/pull/peek histories; isolation for prefixes not extending one another by a dash and a digit, and frame for every row outside the range; full isolation refuted by a vm_compute witness = findings C10-F1/F2; validity range 0 < n < 999999999999999; exactly-once and per-producer order for all schedules of an atomic queue machine. Tie: SQL/guard translator + bridge lemmas + row-level model-vs-implementation comparison after every call + ledger monitor + scheduler/process runs.',
+   text='Theorems over the push/pull/peek selects, guards and key constants regenerated from core.py. Integer queue and every string prefix: the range-restricted, key-ordered view evolves as a double-ended queue; order of 15-digit zero-padded keys proved = numeric order; peek = next pull; invariant inductive over all push/pull/peek histories; isolation for prefixes not extending one another by a dash and a digit, and frame for every row outside the range; full isolation refuted by a vm_compute witness = findings C10-F1/F2; validity range 0 < n < 999999999999999; exactly-once and per-producer order for all schedules of an atomic queue machine; push/pull/peek with their REAL bodies are calls of the micro-step machine (TxnQueue): invariant for every schedule with kills, a delivering pull's commit removes exactly the delivered committed row under the lock; that instance is driven by the schedules the implementation ran under (queuecorr, sched_check). Tie: SQL/guard translator + bridge lemmas + row-level model-vs-implementation comparison after every call + ledger monitor + scheduler/process runs.',
    note='Trusted: Coq kernel; SqlBase/Val model of WHERE/ORDER BY/LIMIT; hand-written skeleton of push/pull/peek/_cull in Cache.v (validated per call). The model has no UNIQUE constraint (C10-F2 is monitor-only). Concurrent clause proved at the atomic layer; atomicity of single calls is C05. Push under a quiet _cull; returned-key identity stated via the inserted row.',
    tech='Coq proof (stable-sort/filter commutation, invariant induction, lexicographic-digit arithmetic, schedule induction) + generated model + differential histories + deterministic-scheduler enumeration',
    ref='7 (C10)'),
  'C05': dict(
    cat='proof',
-   text='Invariant of a micro-step machine (file create/close, BEGIN, body, COMMIT/ROLLBACK, removals, post-commit fetch, lock-free SELECT/open, kill) proved by induction for any number of clients, any programs with well-behaved bodies and any schedule: every committed row refers to a completely written file, a lookup never opens a partial file (it finds the complete file or none: the one tolerated miss), a COMMIT installs exactly its body applied to the current committed state (writers are serial), one client inside a transaction at a time. The body hypotheses are discharged for the real set/add/delete/pop/touch/incr/get/contains bodies of the row model, whose solo run is proved equal to the sequential model that is compared with the implementation after every call. Partial: that SQLite serialises BEGIN IMMEDIATE..COMMIT, that readers see the last committed state and that threads/processes behave as separate connections is not proved; it is exercised: deterministic scheduler over 2-4 clients in own-object, shared-object and forked-process modes, Wing-Gong linearizability monitor against a reference dictionary, event sequences of every call checked against the stage automaton that simulates the machine, lock discipline checked on every merged log. Iteration is not atomic (finding C05-F1).',
-   note='Trusted: Coq kernel; SQLite locking/WAL, CPython thread-local connections, OS processes; the Python reference dictionary of the monitor; the stage automaton accepts a superset of the machine traces (simulation proved one way). The per-call results are compared with the sequential model through the linearization found by the monitor, not through a model run of the same schedule.',
-   tech='Coq inductive invariant over micro-steps of any number of clients (all schedules, kills) + body lemmas for the generated transaction bodies + deterministic-scheduler differential testing with a linearizability monitor and trace automaton',
+   text='Invariant of a micro-step machine (file create/close, BEGIN, body, COMMIT/ROLLBACK, removals, post-commit fetch, lock-free SELECT/open, kill) proved by induction for any number of clients, any programs with well-behaved bodies and any schedule: every committed row refers to a completely written file, a lookup never opens a partial file (it finds the complete file or none: the one tolerated miss), a COMMIT installs exactly its body applied to the current committed state (writers are serial), one client inside a transaction at a time. The body hypotheses are discharged for the real set/add/delete/pop/touch/incr/get/contains bodies of the row model, whose solo run is proved equal to the sequential model that is compared with the implementation after every call. Partial: that SQLite serialises BEGIN IMMEDIATE..COMMIT, that readers see the last committed state and that threads/processes behave as separate connections is not proved; it is exercised: deterministic scheduler over 2-4 clients in own-object, shared-object and forked-process modes, Wing-Gong linearizability monitor against a reference dictionary, event sequences of every call checked against the stage automaton that simulates the machine, lock discipline checked on every merged log; the machine with the real bodies is driven by the very schedule the implementation ran under (ConcRun.sched_check, soundness proved): every BEGIN free/busy, every file step, every outcome and the final rows, counters and files must agree; the Python reference dictionary is itself compared with the machine run with one client. Iteration is not atomic (finding C05-F1).',
+   note='Trusted: Coq kernel; SQLite locking/WAL, CPython thread-local connections, OS processes; the Python reference dictionary of the monitor; the stage automaton accepts a superset of the machine traces (simulation proved one way). The schedule correspondence covers set/add/delete/pop/touch/incr/decr/get/contains (and push/pull/peek under C10) without tags; other calls are decided by the linearizability monitor only.',
+   tech='Coq inductive invariant over micro-steps of any number of clients (all schedules, kills) + body lemmas for the generated transaction bodies + model run under the implementation schedule (correspondence with proved soundness) + deterministic-scheduler differential testing with a linearizability monitor and trace automaton',
    ref='7 (C05)'),
  'C06': dict(
    cat='proof',
-   text='On the same machine, a transact block is one writing call whose body is the composition of its inner calls and whose inner file removals happen while the transaction is open (as the code does): COMMIT is atomic and installs the body on the current state, nobody else can change the committed state while the block holds the lock, ROLLBACK leaves the committed state exactly as it was, other clients spin or time out at BEGIN and never enter the transaction, a call joins an open transaction iff it belongs to the calling thread (generated guard). "Every file of every row still resolves after an abort" is refuted by a vm_compute witness (finding C06-F1..F4, D8) and proved for blocks whose inner calls release no value file. Partial as C05; Cache/Deque/Index/FanoutCache.transact exercised under the scheduler with raise points after every inner call, nesting up to 3, concurrent reader and writer.',
+   text='On the same machine, a transact block is one writing call whose body is the composition of its inner calls and whose inner file removals happen while the transaction is open (as the code does): COMMIT is atomic and installs the body on the current state, nobody else can change the committed state while the block holds the lock, ROLLBACK leaves the committed state exactly as it was, other clients spin or time out at BEGIN and never enter the transaction, a call joins an open transaction iff it belongs to the calling thread (generated guard). "Every file of every row still resolves after an abort" is refuted by a vm_compute witness (finding C06-F1..F4, D8) and proved for blocks whose inner calls release no value file. With the REAL bodies (TxnBlock): machine invariant, atomic commit and exact restoration on abort for every schedule of programs with blocks over inline values; the findings C06-F1/F2 replayed on the real bodies by vm_compute; single-client programs with nested/aborted/partly caught blocks run by the implementation are followed by the block model (block_check, soundness proved), dangling rows included. FanoutCache.transact commits shard by shard (finding C06-F6). Partial as C05; Cache/Deque/Index/FanoutCache.transact exercised under the scheduler with raise points after every inner call, nesting up to 3, concurrent reader and writer.',
    note='Trusted: as C05. FanoutCache.transact ordering (shards taken in index order) is generated and monitored, its deadlock-freedom is not proved. Nested stores happen inside the open transaction in the code and before BEGIN in the machine (file creation does not interact with the lock).',
-   tech='Coq machine invariant + vm_compute counterexample + generated nesting guard + scheduler-driven monitors (abort snapshot equality, block atomicity, nesting placement, thread ownership)',
+   tech='Coq machine invariant + block model over the real bodies (invariant for inline values, vm_compute counterexamples for file-backed ones) + block correspondence with the implementation + generated nesting guard + scheduler-driven monitors (abort snapshot equality, block atomicity, nesting placement, thread ownership)',
    ref='7 (C06)'),
  'C07': dict(
    cat='proof',
-   text='Kill is a step of the machine available in every configuration: the invariant (referenced files complete, ownership of unreferenced files, lock consistency) is closed under kills at arbitrary steps for any number of clients; a kill changes neither the committed state nor the files and releases the victim lock; the database only ever changes by a COMMIT that installs a whole body (interrupted call applied entirely or not at all); a free lock is granted at once. Instantiated with the real bodies. Partial: SQLite WAL recovery and lock release on process death are trusted; a kill inside a SQLite call is only sampled. Exercised: every mutating method x value transitions x inside/outside a block, Deque and Index operations, killed before every traced event (os._exit in a forked child), then reopened: contents = completed calls plus possibly the interrupted one, every present key readable, check() reports only unknown files/empty directories, a write succeeds at once, check(fix=True) then check() clean.',
+   text='Kill is a step of the machine available in every configuration: the invariant (referenced files complete, ownership of unreferenced files, lock consistency) is closed under kills at arbitrary steps for any number of clients; a kill changes neither the committed state nor the files and releases the victim lock; the database only ever changes by a COMMIT that installs a whole body (interrupted call applied entirely or not at all); a free lock is granted at once. Instantiated with the real bodies; at every kill point of the single-call workloads the machine is crashed where the implementation was killed and must hold exactly the rows, counters and files (partial and unreferenced ones included) found in the directory (crash_check, soundness proved). Partial: SQLite WAL recovery and lock release on process death are trusted; a kill inside a SQLite call is only sampled. Exercised: every mutating method x value transitions x inside/outside a block, Deque and Index operations, killed before every traced event (os._exit in a forked child), also inside the opening of a fresh or populated directory, then reopened: contents = completed calls plus possibly the interrupted one, every present key readable, check() reports only unknown files/empty directories, a write succeeds at once, check(fix=True) then check() clean.',
    note='Trusted: os._exit at an event boundary stands for a kill at that instant; SQLite recovery. Blocks that release a value file and are killed before COMMIT leave a row without its file (finding C07-F1, same root cause as C06-F1).',
-   tech='Coq inductive invariant with kill steps + exhaustive kill-point enumeration on the implementation',
+   tech='Coq inductive invariant with kill steps + crash correspondence (machine crashed at the implementation kill point) + exhaustive kill-point enumeration on the implementation',
    ref='7 (C07)'),
  'C14': dict(
    cat='proof',
